@@ -34,7 +34,8 @@ BOUNDS = {'quick': {'ports': 'all 0..65535 (symbolic)', 'hostname': "'g'+<=3 sym
 OUTSIDE = ['symbolic content of hostnames longer than 6 characters', 'IDNA', 'hostnames whose first character is not g (symbolic part)']
 
 V4 = ['0.0.0.0', '255.255.255.255', '1.2.3.4', '127.0.0.1', '10.0.0.255', '192.168.1.1']
-V6 = ['::', '::1', '2001:db8:85a3:8d3:1319:8a2e:370:7348', '::ffff:1.2.3.4', 'fe80::1', 'ffff:ffff:ffff:ffff:ffff:ffff:ffff:ffff']
+V6 = ['::', '::1', '2001:db8:85a3:8d3:1319:8a2e:370:7348', '::ffff:1.2.3.4', 'fe80::1', 'ffff:ffff:ffff:ffff:ffff:ffff:ffff:ffff',
+      'FE80::1', '2001:DB8::A', '::FFFF:1.2.3.4']      # hex digits may be written in upper case
 TYPES = ['CONNECT', 'RESOLVE', 'RESOLVE_PTR']
 CMD = {'CONNECT': 1, 'RESOLVE': 0xF0, 'RESOLVE_PTR': 0xF1}
 
@@ -186,7 +187,7 @@ def _check(req_type, host, port, kind, encodable):
     return ''
 
 
-_LIT = [{'rt': r, 'fam': f, 'idx': i} for r in range(3) for f in (4, 6) for i in range(6)]
+_LIT = [{'rt': r, 'fam': f, 'idx': i} for r in range(3) for f in (4, 6) for i in range(len(V4) if f == 4 else len(V6))]
 
 
 @cond(quick=dict(parts=_LIT, budget=60))
@@ -225,7 +226,10 @@ def c06_long(port: int, rt: int, ln: int) -> str:
 def c06_nonascii(port: int, ch: str, pos: int, rt: int, n: int) -> str:
     """a non-ASCII code point at position pos of an otherwise concrete name: must be refused, nothing mangled on the wire"""
     assume(0 <= port <= 65535)
-    assume(len(ch) == 1 and 128 <= ord(ch) <= 0x9f)
+    assume(len(ch) == 1)
+    o = ord(ch)
+    # C1 controls (symbolic range) and letters / punctuation that an IDNA or UTF-8 encoder would happily rewrite
+    assume((128 <= o <= 0x9f) or o == 0xdf or o == 0xe9 or o == 0xfc or o == 0x3002 or o == 0x4e2d)
     tail = 'a' * pos + ch + 'b' * (n - pos - 1)
     return _check(TYPES[rt], 'g' + tail, port, 'name', False)
 
